@@ -1,6 +1,9 @@
 pub mod checks;
 pub mod ops;
 pub mod partition_checks;
+pub mod penalty_checks;
+pub mod verified;
+pub mod vesting_checks;
 pub mod view;
 
 use crate::common::*;
@@ -29,22 +32,65 @@ impl Engine for SysEngine {
     }
     fn budget(&self, tier: Tier) -> (u32, u32) {
         match tier {
-            Tier::Quick => (16, 30),
-            Tier::Thorough => (16, 600),
+            Tier::Quick => (64, 8),
+            Tier::Thorough => (256, 40),
         }
     }
     fn strategy(&self, tier: Tier) -> BoxedStrategy<SysCase> {
-        case_strategy(if tier == Tier::Quick { 60 } else { 100 }).boxed()
+        let bulk = match self.id { "C04" => 12, "C02" => 4, _ => 2 };
+        // long stretches of chain time cost ~35 µs per epoch: rare in the quick tier
+        let long = match (self.id, tier == Tier::Quick) {
+            ("C05", true) | ("C02", true) | ("C14", true) | ("C03", true) | ("C15", true) => 1,
+            (_, true) => 0,
+            ("C05", false) | ("C02", false) | ("C14", false) | ("C03", false) | ("C15", false) => 20,
+            (_, false) => 6,
+        };
+        let dispute = match self.id { "C15" => 30, "C02" | "C01" => 10, _ => 5 };
+        let verified = match self.id { "C10" => 40, "C02" | "C04" => 8, _ => 4 };
+        case_strategy_w(if tier == Tier::Quick { 60 } else { 100 }, bulk, long, dispute, verified).boxed()
     }
     fn rule(&self) -> String {
-        "system-level histories".into()
+        let common = "case = 1–4 real miners (2 KiB / 8 MiB / 32 GiB proofs; consensus minimum at mainnet or a documented devnet value) created through power.CreateMiner with the real deposit, plus an idle 'cushion' miner holding a large locked reward; ≤60/100 generated operations: pre-commit (valid, reused number, bad randomness epoch, short life), ProveCommitSectors3 (good/bad proofs, any caller), Window PoSt for the open deadline (skipped sets drawn from the partition, bad proofs, partial partition lists), fault and recovery declarations, terminations, extensions, partition compaction, AwardBlockReward with gas reward/penalty/win count, withdrawals by owner/worker/stranger, RepayDebt, disputes, consensus-fault reports, top-ups, macro onboarding/posting steps, and epoch advances to deadline boundaries (−1/0/+1), prove windows and sector deadlines; the cron tick really runs at every epoch; faults can be injected into a nested send of a message or of a tick (dropped again if the actor does not tolerate them). Everything is recomputed from the state tree after every message and every tick. ";
+        let nt = match self.id {
+            "C01" => "non-trivial = a burn or an injected failure occurred and funds were paid out (withdrawal or reward)",
+            "C02" => "non-trivial = a PoSt was accepted and at least two of {declared fault, recovery declaration, skipped sectors, deadline closed without proof, termination, extension} occurred",
+            "C03" => "non-trivial = a reward was locked and vesting funds were unlocked/consumed or a sector terminated",
+            "C04" => "non-trivial = some deadline held ≥2 partitions and a fault/recovery/termination/compaction/extension was applied",
+            "C05" => "non-trivial = a PoSt was accepted and a cron callback had to handle ≥2 of {fee debt, missed proof, vesting unlock, termination, pending early terminations} or a tolerated injected failure",
+            "C15" => "non-trivial = at least two kinds of charge occurred (continued-fault fee, termination fee, dispute penalty, consensus-fault penalty, block penalty, expired pre-commit deposit), or a fault/termination charge was recorded as fee debt",
+            "C10" => "non-trivial = a sector with verified weight was live and an extension with claims, a claim drop, a claim-term extension or an expiry clean-up occurred",
+            "C14" => "non-trivial = a reward was locked, a withdrawal was paid, and a penalty consumed unvested funds or ≥3 schedules overlapped",
+            _ => "non-trivial = a PoSt was accepted",
+        };
+        format!("{common}{nt}; distinct by case hash")
     }
     fn assumptions(&self) -> Vec<String> {
-        vec![]
+        vec![
+            "actors run natively on SimVM with fake (marker-controlled) proofs and constant randomness; the cron tick is run at every epoch".into(),
+            "policy: mainnet values plus the documented 2 KiB / 8 MiB proof types; consensus minimum optionally a documented devnet value".into(),
+            "known findings (known_findings.json) are excluded by exact rules: pledge total shifted by the creation deposits, idle miners with only vesting funds exempt from the deadline-callback clause".into(),
+            "non-tolerated injected tick faults are dropped (tick re-run without the fault) and counted".into(),
+        ]
+    }
+    fn required_labels(&self) -> Vec<(&'static str, f64)> {
+        vec![("post_accepted", 0.3), ("proven", 0.5)]
     }
     fn run(&self, case: &SysCase, stats: &mut CaseStats) -> VResult {
         run_case(case, stats, self.id)?;
-        stats.nontrivial = stats.labels.contains("post_accepted");
+        let l = &stats.labels;
+        let has = |x: &str| l.contains(x);
+        let any = |xs: &[&str]| xs.iter().filter(|x| l.contains(**x)).count();
+        stats.nontrivial = match self.id {
+            "C01" => (has("burn_seen") || has("fault_injected") || has("tolerated_fault_in_tick")) && (has("withdrawn") || has("rewarded")),
+            "C02" => has("post_accepted") && any(&["faults_declared", "recovery_declared", "post_with_skips", "deadline_closed_without_post", "terminated", "extended"]) >= 2,
+            "C03" => has("rewarded") && (has("vesting_unlocked_or_consumed") || has("terminated")),
+            "C04" => has("multi_partition_deadline") && any(&["faults_declared", "recovery_declared", "terminated", "compacted", "extended"]) >= 1,
+            "C05" => has("post_accepted") && (any(&["fee_debt_seen", "deadline_closed_without_post", "vesting_unlocked_or_consumed", "terminated", "early_terminations_pending_over_tick"]) >= 2 || has("tolerated_fault_in_tick")),
+            "C15" => any(&["continued_fault_fee_charged", "termination_fee_charged", "dispute_penalised", "consensus_fault_penalised", "block_penalty_charged", "precommit_expired_deposit_burnt"]) >= 2 || (has("charge_recorded_as_debt") && any(&["continued_fault_fee_charged", "termination_fee_charged"]) >= 1),
+            "C10" => has("verified_sector_checked") && any(&["verified_sector_extended", "claim_dropped_at_end_of_life", "claim_term_extended", "expired_claim_removed", "expired_allocation_removed"]) >= 1,
+            "C14" => has("reward_locked") && has("withdrawal_paid") && (has("penalty_consumed_unvested_funds") || has("three_overlapping_schedules")),
+            _ => has("post_accepted"),
+        };
         Ok(())
     }
 }
